@@ -5,6 +5,7 @@ import json
 import math
 import random
 import struct
+import zlib
 from datetime import datetime
 from pathlib import Path
 
@@ -25,7 +26,12 @@ RULE = (
     "warm-up history through the SAME Line object before the observed cycle (1-3 earlier records read from text "
     "composed outside the line in any dialect the reader accepts — every format of a date field's list, either float "
     "notation, left/right aligned, blank, garbage, short lines — and earlier writes of other values); the model "
-    "computes the cycle without the history, so anything an earlier use leaves behind in the line or its fields shows."
+    "computes the cycle without the history, so anything an earlier use leaves behind in the line or its fields shows. "
+    "A quarter of the cases (drawn independently) INTERLEAVE the three stages of the observed cycle with other uses of the "
+    "same Line object: between the write and the read, and between the read and the re-write, the line reads the text under "
+    "test again, reads foreign records, writes other value lists or writes the values under test once more (0-3 such steps per "
+    "gap), so the text that is read is in general not what the line wrote last and the values re-written are not what it read "
+    "last; the model's cycle has no such steps, the stages must not depend on them."
 )
 ASSUMPTIONS = [
     "E notation only with decimal_digits <= 12 (libm log10 vs exact floor(log10), DESIGN appendix A)",
@@ -115,23 +121,41 @@ def run_impl(case):
                     ln.write([codec.dec_val(v) for v in st[1]])
             except Exception:
                 pass
+        mid = case.get("mid") or [[], []]
         if case.get("prior"):
             # an earlier record goes through the SAME line object first (a file reader/writer reuses one
             # Line per register class); the text of the record under test is produced by a second, fresh
             # line so that it is READ by `ln` without having been written by it
             ln.read(ln.write([codec.dec_val(v) for v in case["prior"]]))
             w = mk_line({k: v for k, v in case.items() if k != "build"}).write(vals)
-            r = ln.read(w)
-            w2 = ln.write(r)
-            return {"written": codec.enc_str(w), "read_back": [codec.enc_val(x) for x in r], "rewritten": codec.enc_str(w2)}
-        w = ln.write(vals)
+        else:
+            w = ln.write(vals)
+        between(ln, mid[0], w, vals)
         r = ln.read(w)
+        between(ln, mid[1], w, vals)
         w2 = ln.write(r)
         if not isinstance(w, str) or not isinstance(w2, str):
             return {"exc": "NotStr", "msg": f"{type(w).__name__}"}
         return {"written": codec.enc_str(w), "read_back": [codec.enc_val(x) for x in r], "rewritten": codec.enc_str(w2)}
     except Exception as e:
         return codec.enc_exc(e)
+
+
+def between(ln, steps, w, vals):
+    """other uses of the same Line object between two stages of the observed cycle (what they return or raise
+    is not the matter here; the stages must not depend on them)"""
+    for st in steps:
+        try:
+            if st[0] == "read":
+                ln.read(codec.dec_str(st[1]))
+            elif st[0] == "write":
+                ln.write([codec.dec_val(v) for v in st[1]])
+            elif st[0] == "reread" and isinstance(w, str):
+                ln.read(w)
+            elif st[0] == "rewrite":
+                ln.write(list(vals))
+        except Exception:
+            pass
 
 
 def request(case, obs):
@@ -146,7 +170,16 @@ def judge(case, obs, resp):
         w = case["warm"]
         v = dict(v, why=v["why"] + f" [the same Line object had been used before: {sum(1 for s in w if s[0] == 'read')} earlier read(s), "
                  f"{sum(1 for s in w if s[0] == 'write')} earlier write(s) of other records; the cycle must not depend on them]")
+    if case.get("mid") and v["status"] in ("oracle", "corr"):
+        a, b = case["mid"]
+        v = dict(v, why=v["why"] + f" [the same Line object was used for other records between the stages of the cycle: {show_steps(a)} between "
+                 f"the write and the read, {show_steps(b)} between the read and the re-write; the stages must not depend on them]")
     return v
+
+
+def show_steps(steps):
+    names = {"read": "read of a foreign record", "write": "write of other values", "reread": "read of the text under test", "rewrite": "write of the values under test"}
+    return ", ".join(names.get(st[0], st[0]) for st in steps) or "nothing"
 
 
 def judge0(case, obs, resp):
@@ -198,6 +231,9 @@ def features(case, obs):
     if case.get("warm"):
         f.append("warm_up_history_on_the_same_line")
         f += sorted({f"warm_step={st[0]}" for st in case["warm"]})
+    if case.get("mid"):
+        f.append("other_uses_between_the_stages_of_the_cycle")
+        f += sorted({f"mid_step={st[0]}" for g in case["mid"] for st in g})
     for fd, v in zip(case["fields"], case["values"]):
         f.append(f"kind={fd['k']}" + (":" + codec.dec_str(fd["fmt"]).upper() if fd["k"] == "flt" else ""))
         if v is None or (isinstance(v, dict) and ("nat" in v or v.get("f") == codec.NAN_BITS)):
@@ -403,7 +439,46 @@ def random_case(rng):
         case["values"] = [None if rng.random() < 0.5 else v for v in case["values"]]
     if rng.random() < 0.25:
         case["warm"] = random_warm(rng, case)
+    # drawn from a generator of its own (derived from the case) so that the streams of the dimensions above stay as they are
+    rng2 = random.Random(zlib.crc32(json.dumps(case, sort_keys=True).encode()))
+    if rng2.random() < 0.25:
+        case["mid"] = random_mid(rng2, case)
     return case
+
+
+def other_values(rng, fields):
+    vals = []
+    for fd in fields:
+        for _ in range(8):
+            fd2, v2 = make_field(rng, fd["start"], [])
+            if fd2["k"] == fd["k"]:
+                break
+        else:
+            v2 = None
+        vals.append(v2)
+    return vals
+
+
+def random_mid(rng, case):
+    """other uses of the same Line object between the stages of the observed cycle: [steps between the write and
+    the read, steps between the read and the re-write]; at least one step in all"""
+    while True:
+        gaps = []
+        for _ in range(2):
+            steps = []
+            for _ in range(rng.choice([0, 1, 2, 2, 3])):
+                r = rng.random()
+                if r < 0.3:
+                    steps.append(["reread"])
+                elif r < 0.65:
+                    steps.append(["write", other_values(rng, case["fields"])])
+                elif r < 0.85:
+                    steps.append(["read", codec.enc_str(foreign_text(rng, case["fields"]))])
+                else:
+                    steps.append(["rewrite"])
+            gaps.append(steps)
+        if gaps[0] or gaps[1]:
+            return gaps
 
 
 def foreign_text(rng, fields):
@@ -556,7 +631,8 @@ def shrinks(case):
     if n > 1:
         for i in range(n):
             yield {**case, "fields": case["fields"][:i] + case["fields"][i + 1 :], "values": case["values"][:i] + case["values"][i + 1 :], **({"prior": case["prior"][:i] + case["prior"][i + 1 :]} if case.get("prior") else {}),
-                   **({"warm": [[st[0], st[1][:i] + st[1][i + 1 :]] if st[0] == "write" else st for st in case["warm"]]} if case.get("warm") else {})}
+                   **({"warm": [[st[0], st[1][:i] + st[1][i + 1 :]] if st[0] == "write" else st for st in case["warm"]]} if case.get("warm") else {}),
+                   **({"mid": [[[st[0], st[1][:i] + st[1][i + 1 :]] if st[0] == "write" else st for st in g] for g in case["mid"]]} if case.get("mid") else {})}
     if case.get("prior"):
         yield {k: v for k, v in case.items() if k != "prior"}
     if case.get("warm"):
@@ -565,6 +641,15 @@ def shrinks(case):
             for i in range(len(w)):
                 yield {**case, "warm": w[:i] + w[i + 1 :]}
         yield {k: v for k, v in case.items() if k != "warm"}
+    if case.get("mid"):
+        yield {k: v for k, v in case.items() if k != "mid"}
+        for gi in range(2):
+            g = case["mid"][gi]
+            for i in range(len(g)):
+                m = [list(x) for x in case["mid"]]
+                m[gi] = g[:i] + g[i + 1 :]
+                if m[0] or m[1]:
+                    yield {**case, "mid": m}
     if case.get("build"):
         b = case["build"]
         for i in range(1, len(b)):
